@@ -50,7 +50,7 @@ def gen_params(rng):
         "allow_recirculation": rng.random() < 0.4,
         "machines_per_operation": mpo,
         "name_suffix": rng.choice(["g", "classic_generated_instance", "x_y"]),
-        "seed": rng.randrange(1 << 16) if rng.random() < 0.7 else None,
+        "seed": (rng.choice([0, 0, 1, 42, 2 ** 31]) if rng.random() < 0.2 else rng.randrange(1 << 16)) if rng.random() < 0.7 else None,
         "iteration_limit": rng.randint(0, 5) if rng.random() < 0.5 else None,
     }
 
